@@ -1,6 +1,7 @@
 package main
 
 import (
+	"os/exec"
 	"flag"
 	"fmt"
 	"os"
@@ -56,6 +57,7 @@ func cmdVerify(args []string) {
 	verbose := fs.Bool("v", false, "verbose")
 	repo := fs.String("repo", "/repo", "repository")
 	keep := fs.String("keep", "/tmp/govc-q", "query dir")
+	model := fs.Bool("model", false, "print values of SSA registers for sat obligations")
 	fs.Parse(args)
 	t0 := time.Now()
 	e, err := NewEngine(*repo, "/verif/spec")
@@ -78,6 +80,56 @@ func cmdVerify(args []string) {
 		res := e.VerifyFunction(fn, c, *panics, nil)
 		e.Solve(res.Obls, SolveCfg{TimeoutS: *timeout, Dir: *keep, Workers: 8})
 		printResult(e, res, *verbose)
+		if *model {
+			for _, o := range res.Obls {
+				if o.Result != nil && !o.Cover && (o.Result.Status == "sat" || o.Result.Model != "") {
+					fmt.Printf("  --- values for %s\n", o.Name)
+					printValues(e, o)
+				}
+			}
+		}
+	}
+}
+
+func printValues(e *Engine, o *Obligation) {
+	var terms []*Term
+	var names []string
+	seen := map[*Term]bool{}
+	add := func(ls []leaf) {
+		for _, l := range ls {
+			if l.T == nil || seen[l.T] || l.T.hasBV || l.T.Sort.Kind == SArr {
+				continue
+			}
+			seen[l.T] = true
+			terms = append(terms, l.T)
+			names = append(names, l.Name)
+		}
+	}
+	add(o.Inputs)
+	if o.root != nil {
+		add(o.root.watch)
+	}
+	hyps := e.PrepareQF(o)
+	script := e.tb.Script(hyps, nil, true, false, terms...)
+	f := "/tmp/govc-values.smt2"
+	os.WriteFile(f, []byte(script), 0o644)
+	out, _ := exec.Command("z3-new", "-smt2", "-T:20", f).CombinedOutput()
+	lines := strings.Split(string(out), "\n")
+	fmt.Printf("    %s\n", lines[0])
+	i := 0
+	for _, l := range lines[1:] {
+		l = strings.TrimSpace(l)
+		if l == "" {
+			continue
+		}
+		if i < len(names) {
+			// value is the last token
+			fs := strings.Fields(strings.TrimRight(l, ")"))
+			if len(fs) > 0 {
+				fmt.Printf("    %-28s %s\n", names[i], fs[len(fs)-1])
+			}
+			i++
+		}
 	}
 }
 
